@@ -270,13 +270,13 @@ Section Tables.
   Variable dc : dsend -> option Z.
 
   (* ---------------- plasma *)
-  Definition plasma_lookup (e : env) (s : send) : lres pstore :=
-    if bytes_eqb (sel_of (s_data s)) Sel_plasma_Fuse then LFound (fuse_receive e)
-    else if bytes_eqb (sel_of (s_data s)) Sel_plasma_CancelFuse then LFound (cancel_fuse_receive e)
+  Definition plasma_lookup (ef : send -> env) (s : send) : lres pstore :=
+    if bytes_eqb (sel_of (s_data s)) Sel_plasma_Fuse then LFound (fuse_receive (ef s))
+    else if bytes_eqb (sel_of (s_data s)) Sel_plasma_CancelFuse then LFound (cancel_fuse_receive (ef s))
     else LNotFound.
   Definition J_plasma (a : cacct pstore) : Prop := tall (fun f => 0 <= f_amount f) (p_fusions (a_store a)).
 
-  Lemma plasma_table_ok e : table_ok pstore dc J_plasma (plasma_lookup e).
+  Lemma plasma_table_ok ef : table_ok pstore dc J_plasma (plasma_lookup ef).
   Proof.
     split.
     - intros a a' HJ Hs _. unfold J_plasma in *. rewrite Hs. exact HJ.
@@ -284,18 +284,18 @@ Section Tables.
     - intros s m a El HJ Hn Hs. assert (Hd : data_ok (s_data s)) by (split; apply Hs). unfold plasma_lookup in El.
       destruct (bytes_eqb _ Sel_plasma_Fuse); [inversion El; subst m|
         destruct (bytes_eqb _ Sel_plasma_CancelFuse); [inversion El; subst m|discriminate]].
-      + unfold fuse_receive. pose proof (fuse_validate_no_panic e s Hd). destruct (fuse_validate e s); [discriminate|discriminate|contradiction].
+      + unfold fuse_receive. pose proof (fuse_validate_no_panic (ef s) s Hd). destruct (fuse_validate (ef s) s); [discriminate|discriminate|contradiction].
       + unfold cancel_fuse_receive. pose proof (cancel_fuse_validate_no_panic s Hd). destruct (cancel_fuse_validate s); [|discriminate|contradiction].
         destruct (tget _ _); [|discriminate]. destruct (Z.ltb _ _); discriminate.
     - intros s m a a' ds El HJ Hn Hs Em. unfold plasma_lookup in El.
       pose proof (credited_nonneg pstore a s Hn Hs) as Hnc.
       destruct (bytes_eqb _ Sel_plasma_Fuse); [inversion El; subst m|
         destruct (bytes_eqb _ Sel_plasma_CancelFuse); [inversion El; subst m|discriminate]].
-      + unfold fuse_receive in Em. destruct (fuse_validate e s) as [ben| |]; try discriminate.
+      + unfold fuse_receive in Em. destruct (fuse_validate (ef s) s) as [ben| |]; try discriminate.
         inversion Em; subst a' ds. clear Em.
         assert (HJ' : J_plasma (with_store (credited pstore a s)
                    {| p_fusions := tput (p_fusions (a_store (credited pstore a s))) (s_from s ++ s_hash s)
-                        {| f_amount := u256 (s_amount s); f_exp := u64 (e_height e + c_FuseExpiration e); f_ben := ben |};
+                        {| f_amount := u256 (s_amount s); f_exp := u64 (e_height (ef s) + c_FuseExpiration (ef s)); f_ben := ben |};
                       p_fused := tput (p_fused (a_store (credited pstore a s))) ben
                         (u256 (match tget (p_fused (a_store (credited pstore a s))) ben with Some v => v | None => 0 end + s_amount s)) |})).
         { unfold J_plasma. cbn [a_store with_store p_fusions]. apply tall_tput; [exact HJ | apply u256_nonneg]. }
@@ -304,7 +304,7 @@ Section Tables.
       + unfold cancel_fuse_receive in Em. destruct (cancel_fuse_validate s) as [id| |]; try discriminate.
         rewrite credited_store in Em.
         destruct (tget (p_fusions (a_store a)) (s_from s ++ id)) as [ent|] eqn:Eg; [|discriminate].
-        destruct (e_height e <? f_exp ent); [discriminate|].
+        destruct (e_height (ef s) <? f_exp ent); [discriminate|].
         inversion Em; subst a' ds. clear Em.
         pose proof (HJ _ _ Eg) as Hamt. cbn beta in Hamt.
         assert (Hds : Forall ds_ok [{| d_to := s_from s; d_amount := f_amount ent; d_zts := ZtsQsr; d_data := [] |}]).
@@ -316,13 +316,13 @@ Section Tables.
   Qed.
 
   (* ---------------- stake *)
-  Definition stake_lookup (e : env) (s : send) : lres sstore :=
-    if bytes_eqb (sel_of (s_data s)) Sel_stake_Stake then LFound (stake_receive e)
-    else if bytes_eqb (sel_of (s_data s)) Sel_stake_Cancel then LFound (cancel_stake_receive e)
+  Definition stake_lookup (ef : send -> env) (s : send) : lres sstore :=
+    if bytes_eqb (sel_of (s_data s)) Sel_stake_Stake then LFound (stake_receive (ef s))
+    else if bytes_eqb (sel_of (s_data s)) Sel_stake_Cancel then LFound (cancel_stake_receive (ef s))
     else LNotFound.
   Definition J_stake (a : cacct sstore) : Prop := tall (fun k => 0 <= k_amount k) (a_store a).
 
-  Lemma stake_table_ok e : env_ok e -> table_ok sstore dc J_stake (stake_lookup e).
+  Lemma stake_table_ok ef : (forall s, env_ok (ef s)) -> table_ok sstore dc J_stake (stake_lookup ef).
   Proof.
     intros He. split.
     - intros a a' HJ Hs _. unfold J_stake in *. rewrite Hs. exact HJ.
@@ -330,14 +330,14 @@ Section Tables.
     - intros s m a El HJ Hn Hs. assert (Hd : data_ok (s_data s)) by (split; apply Hs). unfold stake_lookup in El.
       destruct (bytes_eqb _ Sel_stake_Stake); [inversion El; subst m|
         destruct (bytes_eqb _ Sel_stake_Cancel); [inversion El; subst m|discriminate]].
-      + unfold stake_receive. pose proof (stake_validate_no_panic e s He Hd). destruct (stake_validate e s); [discriminate|discriminate|contradiction].
+      + unfold stake_receive. pose proof (stake_validate_no_panic (ef s) s (He s) Hd). destruct (stake_validate (ef s) s); [discriminate|discriminate|contradiction].
       + unfold cancel_stake_receive. pose proof (cancel_stake_validate_no_panic s Hd). destruct (cancel_stake_validate s); [|discriminate|contradiction].
         destruct (tget _ _); [|discriminate]. destruct (Z.ltb _ _); discriminate.
     - intros s m a a' ds El HJ Hn Hs Em. unfold stake_lookup in El.
       pose proof (credited_nonneg sstore a s Hn Hs) as Hnc.
       destruct (bytes_eqb _ Sel_stake_Stake); [inversion El; subst m|
         destruct (bytes_eqb _ Sel_stake_Cancel); [inversion El; subst m|discriminate]].
-      + unfold stake_receive in Em. destruct (stake_validate e s) as [t| |]; try discriminate.
+      + unfold stake_receive in Em. destruct (stake_validate (ef s) s) as [t| |]; try discriminate.
         inversion Em; subst a' ds. clear Em.
         split; [|split; [|split]]; auto.
         intros a'' Ea. inversion Ea; subst a''. unfold J_stake. cbn [a_store with_store].
@@ -345,7 +345,7 @@ Section Tables.
       + unfold cancel_stake_receive in Em. destruct (cancel_stake_validate s) as [id| |]; try discriminate.
         rewrite credited_store in Em.
         destruct (tget (a_store a) (s_from s ++ id)) as [ent|] eqn:Eg; [|discriminate].
-        destruct (e_now e <? k_exp ent); [discriminate|].
+        destruct (e_now (ef s) <? k_exp ent); [discriminate|].
         inversion Em; subst a' ds. clear Em.
         pose proof (HJ _ _ Eg) as Hamt. cbn beta in Hamt.
         assert (Hds : Forall ds_ok [{| d_to := s_from s; d_amount := k_amount ent; d_zts := ZtsZnn; d_data := [] |}]).
@@ -354,86 +354,6 @@ Section Tables.
         intros a'' Ea. unfold J_stake.
         rewrite (apply_all_store sstore dc _ _ a'' (with_store_nonneg sstore _ _ Hnc) Hds Ea).
         cbn [a_store with_store]. apply tall_tput; [exact HJ | cbn; lia].
-  Qed.
-
-  (* ---------------- htlc *)
-  Variable H : Z -> bytes -> bytes.
-  Definition htlc_lookup (e : env) (s : send) : lres hstore :=
-    let sl := sel_of (s_data s) in
-    if bytes_eqb sl Sel_htlc_Create then LFound (create_receive e)
-    else if bytes_eqb sl Sel_htlc_Reclaim then LFound (reclaim_receive e)
-    else if bytes_eqb sl Sel_htlc_Unlock then LFound (unlock_receive H e)
-    else if bytes_eqb sl Sel_htlc_DenyProxyUnlock then LFound (proxy_receive false)
-    else if bytes_eqb sl Sel_htlc_AllowProxyUnlock then LFound (proxy_receive true)
-    else LNotFound.
-  Definition htlc_entry_ok (h : htlc) : Prop := 0 <= h_amount h /\ h_zts h <> zero_zts.
-  Definition J_htlc (a : cacct hstore) : Prop := tall htlc_entry_ok (h_entries (a_store a)).
-
-  Lemma htlc_table_ok e : table_ok hstore dc J_htlc (htlc_lookup e).
-  Proof.
-    split.
-    - intros a a' HJ Hs _. unfold J_htlc in *. rewrite Hs. exact HJ.
-    - intros s. unfold htlc_lookup. cbv zeta. repeat destruct (bytes_eqb _ _); discriminate.
-    - intros s m a El HJ Hn Hs. assert (Hd : data_ok (s_data s)) by (split; apply Hs). unfold htlc_lookup in El. cbv zeta in El.
-      repeat (match type of El with context [bytes_eqb ?x ?y] => destruct (bytes_eqb x y) end;
-              [inversion El; subst m; clear El|]); try discriminate.
-      + unfold create_receive. pose proof (create_validate_no_panic s Hd). destruct (create_validate s) as [[[[[hl ex] ty] km] lk]| |]; [|discriminate|contradiction].
-        destruct (Z.leb _ _); discriminate.
-      + unfold reclaim_receive. pose proof (reclaim_validate_no_panic s Hd). destruct (reclaim_validate s); [|discriminate|contradiction].
-        destruct (tget _ _); [|discriminate]. destruct (negb _); [discriminate|]. destruct (Z.ltb _ _); discriminate.
-      + unfold unlock_receive. pose proof (unlock_validate_no_panic s Hd). destruct (unlock_validate s) as [[id pre]| |]; [|discriminate|contradiction].
-        destruct (tget _ _); [|discriminate].
-        destruct (_ && _); [discriminate|]. destruct (Z.leb _ _); [discriminate|]. destruct (Z.ltb _ _); [discriminate|].
-        destruct (negb _); discriminate.
-      + unfold proxy_receive. pose proof (proxy_validate_no_panic Sel_htlc_DenyProxyUnlock s). destruct (proxy_validate _ s); [discriminate|discriminate|contradiction].
-      + unfold proxy_receive. pose proof (proxy_validate_no_panic Sel_htlc_AllowProxyUnlock s). destruct (proxy_validate _ s); [discriminate|discriminate|contradiction].
-    - intros s m a a' ds El HJ Hn Hs Em. unfold htlc_lookup in El. cbv zeta in El.
-      pose proof (credited_nonneg hstore a s Hn Hs) as Hnc.
-      repeat (match type of El with context [bytes_eqb ?x ?y] => destruct (bytes_eqb x y) end;
-              [inversion El; subst m; clear El|]); try discriminate.
-      + (* create *)
-        unfold create_receive in Em. destruct (create_validate s) as [[[[[hl ex] ty] km] lk]| |] eqn:Ev; try discriminate.
-        destruct (ex <=? e_now e); [discriminate|]. inversion Em; subst a' ds. clear Em.
-        split; [|split; [|split]]; auto.
-        intros a'' Ea. inversion Ea; subst a''. unfold J_htlc. cbn [a_store with_store h_entries].
-        apply tall_tput; [exact HJ|]. split; cbn; [apply u256_nonneg|].
-        (* the call carried a positive amount, so the verifier forced a token *)
-        unfold create_validate in Ev.
-        destruct (unpack_args _ _ _) as [vs| |]; try discriminate.
-        repeat (vcase Ev). apply Hs. destruct Hs as (Hge & _). lia.
-      + (* reclaim *)
-        unfold reclaim_receive in Em. destruct (reclaim_validate s) as [id| |]; try discriminate.
-        rewrite credited_store in Em.
-        destruct (tget (h_entries (a_store a)) id) as [ent|] eqn:Eg; [|discriminate].
-        destruct (negb _); [discriminate|]. destruct (Z.ltb _ _); [discriminate|].
-        inversion Em; subst a' ds. clear Em.
-        destruct (HJ _ _ Eg) as (Hamt & Hz).
-        assert (Hds : Forall ds_ok [{| d_to := h_timelocked ent; d_amount := h_amount ent; d_zts := h_zts ent; d_data := [] |}]).
-        { constructor; [|constructor]. split; cbn; auto. }
-        split; [|split; [|split]]; auto.
-        intros a'' Ea. unfold J_htlc.
-        rewrite (apply_all_store hstore dc _ _ a'' (with_store_nonneg hstore _ _ Hnc) Hds Ea).
-        cbn [a_store with_store h_entries]. apply tall_tdel. exact HJ.
-      + (* unlock *)
-        unfold unlock_receive in Em. destruct (unlock_validate s) as [[id pre]| |]; try discriminate.
-        rewrite credited_store in Em.
-        destruct (tget (h_entries (a_store a)) id) as [ent|] eqn:Eg; [|discriminate].
-        destruct (_ && _); [discriminate|]. destruct (Z.leb _ _); [discriminate|]. destruct (Z.ltb _ _); [discriminate|].
-        destruct (negb _); [discriminate|].
-        inversion Em; subst a' ds. clear Em.
-        destruct (HJ _ _ Eg) as (Hamt & Hz).
-        assert (Hds : Forall ds_ok [{| d_to := h_hashlocked ent; d_amount := h_amount ent; d_zts := h_zts ent; d_data := [] |}]).
-        { constructor; [|constructor]. split; cbn; auto. }
-        split; [|split; [|split]]; auto.
-        intros a'' Ea. unfold J_htlc.
-        rewrite (apply_all_store hstore dc _ _ a'' (with_store_nonneg hstore _ _ Hnc) Hds Ea).
-        cbn [a_store with_store h_entries]. apply tall_tdel. exact HJ.
-      + unfold proxy_receive in Em. destruct (proxy_validate _ s); try discriminate.
-        inversion Em; subst a' ds. split; [|split; [|split]]; auto.
-        intros a'' Ea. inversion Ea; subst a''. exact HJ.
-      + unfold proxy_receive in Em. destruct (proxy_validate _ s); try discriminate.
-        inversion Em; subst a' ds. split; [|split; [|split]]; auto.
-        intros a'' Ea. inversion Ea; subst a''. exact HJ.
   Qed.
 
   (* ---------------- common part (QSR deposits, reward deposits, donations) of a contract at address [self] *)
@@ -584,34 +504,115 @@ Section Tables.
         all: intros a'' Ea; inversion Ea; subst a''; unfold J_token; cbn [a_store with_store];
              rewrite tget_tput; rewrite bytes_eqb_neq by exact Hz; exact HJ.
   Qed.
+
+  (* ---------------- htlc *)
+  Variable H : Z -> bytes -> bytes.
+  Definition htlc_lookup (ef : send -> env) (s : send) : lres hstore :=
+    let sl := sel_of (s_data s) in
+    if bytes_eqb sl Sel_htlc_Create then LFound (create_receive (ef s))
+    else if bytes_eqb sl Sel_htlc_Reclaim then LFound (reclaim_receive (ef s))
+    else if bytes_eqb sl Sel_htlc_Unlock then LFound (unlock_receive H (ef s))
+    else if bytes_eqb sl Sel_htlc_DenyProxyUnlock then LFound (proxy_receive false)
+    else if bytes_eqb sl Sel_htlc_AllowProxyUnlock then LFound (proxy_receive true)
+    else LNotFound.
+  Definition htlc_entry_ok (h : htlc) : Prop := 0 <= h_amount h /\ h_zts h <> zero_zts.
+  Definition J_htlc (a : cacct hstore) : Prop := tall htlc_entry_ok (h_entries (a_store a)).
+
+  Lemma htlc_table_ok ef : table_ok hstore dc J_htlc (htlc_lookup ef).
+  Proof.
+    split.
+    - intros a a' HJ Hs _. unfold J_htlc in *. rewrite Hs. exact HJ.
+    - intros s. unfold htlc_lookup. cbv zeta. repeat destruct (bytes_eqb _ _); discriminate.
+    - intros s m a El HJ Hn Hs. assert (Hd : data_ok (s_data s)) by (split; apply Hs). unfold htlc_lookup in El. cbv zeta in El.
+      repeat (match type of El with context [bytes_eqb ?x ?y] => destruct (bytes_eqb x y) end;
+              [inversion El; subst m; clear El|]); try discriminate.
+      + unfold create_receive. pose proof (create_validate_no_panic s Hd). destruct (create_validate s) as [[[[[hl ex] ty] km] lk]| |]; [|discriminate|contradiction].
+        destruct (Z.leb _ _); discriminate.
+      + unfold reclaim_receive. pose proof (reclaim_validate_no_panic s Hd). destruct (reclaim_validate s); [|discriminate|contradiction].
+        destruct (tget _ _); [|discriminate]. destruct (negb _); [discriminate|]. destruct (Z.ltb _ _); discriminate.
+      + unfold unlock_receive. pose proof (unlock_validate_no_panic s Hd). destruct (unlock_validate s) as [[id pre]| |]; [|discriminate|contradiction].
+        destruct (tget _ _); [|discriminate].
+        destruct (_ && _); [discriminate|]. destruct (Z.leb _ _); [discriminate|]. destruct (Z.ltb _ _); [discriminate|].
+        destruct (negb _); discriminate.
+      + unfold proxy_receive. pose proof (proxy_validate_no_panic Sel_htlc_DenyProxyUnlock s). destruct (proxy_validate _ s); [discriminate|discriminate|contradiction].
+      + unfold proxy_receive. pose proof (proxy_validate_no_panic Sel_htlc_AllowProxyUnlock s). destruct (proxy_validate _ s); [discriminate|discriminate|contradiction].
+    - intros s m a a' ds El HJ Hn Hs Em. unfold htlc_lookup in El. cbv zeta in El.
+      pose proof (credited_nonneg hstore a s Hn Hs) as Hnc.
+      repeat (match type of El with context [bytes_eqb ?x ?y] => destruct (bytes_eqb x y) end;
+              [inversion El; subst m; clear El|]); try discriminate.
+      + (* create *)
+        unfold create_receive in Em. destruct (create_validate s) as [[[[[hl ex] ty] km] lk]| |] eqn:Ev; try discriminate.
+        destruct (ex <=? e_now (ef s)); [discriminate|]. inversion Em; subst a' ds. clear Em.
+        split; [|split; [|split]]; auto.
+        intros a'' Ea. inversion Ea; subst a''. unfold J_htlc. cbn [a_store with_store h_entries].
+        apply tall_tput; [exact HJ|]. split; cbn; [apply u256_nonneg|].
+        (* the call carried a positive amount, so the verifier forced a token *)
+        unfold create_validate in Ev.
+        destruct (unpack_args _ _ _) as [vs| |]; try discriminate.
+        repeat (vcase Ev). apply Hs. destruct Hs as (Hge & _). lia.
+      + (* reclaim *)
+        unfold reclaim_receive in Em. destruct (reclaim_validate s) as [id| |]; try discriminate.
+        rewrite credited_store in Em.
+        destruct (tget (h_entries (a_store a)) id) as [ent|] eqn:Eg; [|discriminate].
+        destruct (negb _); [discriminate|]. destruct (Z.ltb _ _); [discriminate|].
+        inversion Em; subst a' ds. clear Em.
+        destruct (HJ _ _ Eg) as (Hamt & Hz).
+        assert (Hds : Forall ds_ok [{| d_to := h_timelocked ent; d_amount := h_amount ent; d_zts := h_zts ent; d_data := [] |}]).
+        { constructor; [|constructor]. split; cbn; auto. }
+        split; [|split; [|split]]; auto.
+        intros a'' Ea. unfold J_htlc.
+        rewrite (apply_all_store hstore dc _ _ a'' (with_store_nonneg hstore _ _ Hnc) Hds Ea).
+        cbn [a_store with_store h_entries]. apply tall_tdel. exact HJ.
+      + (* unlock *)
+        unfold unlock_receive in Em. destruct (unlock_validate s) as [[id pre]| |]; try discriminate.
+        rewrite credited_store in Em.
+        destruct (tget (h_entries (a_store a)) id) as [ent|] eqn:Eg; [|discriminate].
+        destruct (_ && _); [discriminate|]. destruct (Z.leb _ _); [discriminate|]. destruct (Z.ltb _ _); [discriminate|].
+        destruct (negb _); [discriminate|].
+        inversion Em; subst a' ds. clear Em.
+        destruct (HJ _ _ Eg) as (Hamt & Hz).
+        assert (Hds : Forall ds_ok [{| d_to := h_hashlocked ent; d_amount := h_amount ent; d_zts := h_zts ent; d_data := [] |}]).
+        { constructor; [|constructor]. split; cbn; auto. }
+        split; [|split; [|split]]; auto.
+        intros a'' Ea. unfold J_htlc.
+        rewrite (apply_all_store hstore dc _ _ a'' (with_store_nonneg hstore _ _ Hnc) Hds Ea).
+        cbn [a_store with_store h_entries]. apply tall_tdel. exact HJ.
+      + unfold proxy_receive in Em. destruct (proxy_validate _ s); try discriminate.
+        inversion Em; subst a' ds. split; [|split; [|split]]; auto.
+        intros a'' Ea. inversion Ea; subst a''. exact HJ.
+      + unfold proxy_receive in Em. destruct (proxy_validate _ s); try discriminate.
+        inversion Em; subst a' ds. split; [|split; [|split]]; auto.
+        intros a'' Ea. inversion Ea; subst a''. exact HJ.
+  Qed.
+
 End Tables.
 
 (* ================================================================ the vm theorems instantiated *)
 Section Instances.
   Variable dc : dsend -> option Z.
 
-  Theorem plasma_completes e a s : nonneg pstore a -> J_plasma a -> send_ok s -> dc (refund_of s) = None ->
-    outcome_ok pstore J_plasma a s (generate_receive pstore dc (plasma_lookup e) a s).
+  Theorem plasma_completes ef a s : nonneg pstore a -> J_plasma a -> send_ok s -> dc (refund_of s) = None ->
+    outcome_ok pstore J_plasma a s (generate_receive pstore dc (plasma_lookup ef) a s).
   Proof. intros. apply vm_completes; auto using plasma_table_ok. Qed.
-  Theorem stake_completes e a s : env_ok e -> nonneg sstore a -> J_stake a -> send_ok s -> dc (refund_of s) = None ->
-    outcome_ok sstore J_stake a s (generate_receive sstore dc (stake_lookup e) a s).
+  Theorem stake_completes ef a s : (forall s, env_ok (ef s)) -> nonneg sstore a -> J_stake a -> send_ok s -> dc (refund_of s) = None ->
+    outcome_ok sstore J_stake a s (generate_receive sstore dc (stake_lookup ef) a s).
   Proof. intros. apply vm_completes; auto using stake_table_ok. Qed.
   Theorem common_completes self a s : nonneg cstore a -> J_common a -> send_ok s -> dc (refund_of s) = None ->
     outcome_ok cstore J_common a s (generate_receive cstore dc (common_lookup self) a s).
   Proof. intros. apply vm_completes; auto using common_table_ok. Qed.
   Theorem token_completes a s : nonneg tstore a -> J_token a -> send_ok s -> dc (refund_of s) = None ->
     outcome_ok tstore J_token a s (generate_receive tstore dc token_lookup a s).
-  Proof. intros. apply vm_completes; auto. apply (token_table_ok dc (fun _ _ => []) []). Qed.
+  Proof. intros. apply vm_completes; auto. apply (token_table_ok dc). Qed.
 
   Variable H : Z -> bytes -> bytes.
-  Theorem htlc_completes e a s : nonneg hstore a -> J_htlc a -> send_ok s -> dc (refund_of s) = None ->
-    outcome_ok hstore J_htlc a s (generate_receive hstore dc (htlc_lookup H e) a s).
+  Theorem htlc_completes ef a s : nonneg hstore a -> J_htlc a -> send_ok s -> dc (refund_of s) = None ->
+    outcome_ok hstore J_htlc a s (generate_receive hstore dc (htlc_lookup H ef) a s).
   Proof. intros. apply vm_completes; auto using htlc_table_ok. Qed.
 
   (* any queue of calls to the htlc contract (the one with the most methods) is worked off completely *)
-  Theorem htlc_inbox_never_wedged e q : Forall (fun s => send_ok s /\ dc (refund_of s) = None) q ->
+  Theorem htlc_inbox_never_wedged ef q : Forall (fun s => send_ok s /\ dc (refund_of s) = None) q ->
     forall a, nonneg hstore a -> J_htlc a ->
-    exists a', process_all hstore dc (htlc_lookup H e) a q = Some a' /\ a_cursor a' = a_cursor a + Z.of_nat (length q) /\
+    exists a', process_all hstore dc (htlc_lookup H ef) a q = Some a' /\ a_cursor a' = a_cursor a + Z.of_nat (length q) /\
                nonneg hstore a' /\ J_htlc a'.
   Proof. intros. apply inbox_never_wedged; auto using htlc_table_ok. Qed.
 End Instances.
